@@ -314,6 +314,35 @@ pub fn main_locks(args: &Args) {
     lock_events.extend(bemodel::verif_trace::take().iter().filter_map(|l| serde_json::from_str::<Value>(l).ok()));
     lock_events.retain(|e| e["ev"].as_str().map_or(false, |s| ["Request", "Done", "Acquire", "Release"].contains(&s)));
     lock_events.sort_by_key(|e| e["seq"].as_u64().unwrap_or(0));
+    // a computation that finds one of the process-wide tables busy waits for it: while this thread holds a table (as a
+    // concurrent computation does for a moment), another thread computes; the result must be the solitary one
+    {
+        use bemodel::climatedata::{CLIMATEMETADATA, JULYRADDATA, MONTHLYRADDATA};
+        for table in ["CLIMATEMETADATA", "JULYRADDATA", "MONTHLYRADDATA"] {
+            for k in 0..shared.len().min(3) {
+                let ms = shared.clone();
+                let (tx, rx) = std::sync::mpsc::channel();
+                let h = {
+                    let g1 = if table == "CLIMATEMETADATA" { Some(CLIMATEMETADATA.lock().unwrap_or_else(|e| e.into_inner())) } else { None };
+                    let g2 = if table == "JULYRADDATA" { Some(JULYRADDATA.lock().unwrap_or_else(|e| e.into_inner())) } else { None };
+                    let g3 = if table == "MONTHLYRADDATA" { Some(MONTHLYRADDATA.lock().unwrap_or_else(|e| e.into_inner())) } else { None };
+                    let h = std::thread::spawn(move || {
+                        let (n, m) = &ms[k];
+                        let _ = tx.send(result_event("indicators", n, &format!("while {} is held by another thread", table), indicators_digest(m)));
+                    });
+                    std::thread::sleep(std::time::Duration::from_millis(120));
+                    drop(g1);
+                    drop(g2);
+                    drop(g3);
+                    h
+                };
+                let _ = h.join();
+                if let Ok(e) = rx.recv_timeout(std::time::Duration::from_secs(60)) {
+                    out.push(e);
+                }
+            }
+        }
+    }
     let nlock = lock_events.len();
     out.extend(lock_events);
     write_lines(&out_path, &out.iter().map(|e| e.to_string()).collect::<Vec<_>>());
